@@ -68,6 +68,13 @@ def resetVal : Value → Res
   | .nil => .error .panic
   | _ => err "notIterable"
 
+/-- an error of the expression semantics ends the statement - unless it is the marker of "outside the
+    expression semantics", for which the statement semantics defines no outcome either -/
+def failE (e : Err) (env : Env) (o : Str) : Outcome := if e = undefErr then .diverged else .failed e env o
+
+theorem failE_ne {e : Err} (h : e ≠ undefErr) (env : Env) (o : Str) : failE e env o = .failed e env o := by
+  simp [failE, h]
+
 /-- how a call ends: with a value (possibly the void value, which is not pushed), with an error, or not
     at all within the budget -/
 inductive CallOut
@@ -90,7 +97,7 @@ def callEnd (v : Value) (env : Env) (out : Str) : CallOut :=
 def callWith (deep : Bool) (run : List Stmt → Env → Str → Outcome) (M : Machine) (F : FnTable) (obj : HostVal)
     (name : Str) (args : List Expr) (env : Env) (out : Str) : CallOut :=
   match evalEs M obj env args out with
-  | (.error e, o) => .failed e env o
+  | (.error e, o) => if e = undefErr then .undefined else .failed e env o
   | (.ok vs, o) =>
     match lookupFn M name with
     | some impl =>
@@ -150,10 +157,10 @@ mutual
     | _ + 1, .assign name v, env, out =>
         match evalE M obj env v out with
         | (.ok x, o) => .normal (env.set name x) o
-        | (.error e, o) => .failed e env o
+        | (.error e, o) => failE e env o
     | f + 1, .ifE c cons alt, env, out =>
         match evalE M obj env c out with
-        | (.error e, o) => .failed e env o
+        | (.error e, o) => failE e env o
         | (.ok cv, o) =>
           if cv.truthy then execSs M F obj depth f cons env o
           else match alt with
@@ -161,7 +168,7 @@ mutual
             | some a => execSs M F obj depth f a env o
     | f + 1, .whileE c body, env, out =>
         match evalE M obj env c out with
-        | (.error e, o) => .failed e env o
+        | (.error e, o) => failE e env o
         | (.ok cv, o) =>
           if cv.truthy then
             match execSs M F obj depth f body env o with
@@ -170,7 +177,7 @@ mutual
           else .normal env o
     | f + 1, .foreachE idx x v body, env, out =>
         match evalE M obj env v out with
-        | (.error e, o) => .failed e env o
+        | (.error e, o) => failE e env o
         | (.ok iv, o) =>
           match resetVal iv with
           | .ok it => execIter M F obj depth f idx x body it 0 env.addScope o
@@ -181,10 +188,10 @@ mutual
         | none => .failed .unsupported env out
         | some o =>
           match evalE M obj env (.ident name) out with
-          | (.error e, o1) => .failed e env o1
+          | (.error e, o1) => failE e env o1
           | (.ok lv, o1) =>
             match evalE M obj env r o1 with
-            | (.error e, o2) => .failed e env o2
+            | (.error e, o2) => failE e env o2
             | (.ok rv, o2) =>
               match binop M o lv rv with
               | .error e => .failed e env o2
@@ -213,10 +220,10 @@ mutual
     | _ + 1, _, [], _, env, out => .next env out
     | f + 1, v, e :: es, b, env, out =>
         match evalE M obj env v out with
-        | (.error x, o) => .done (.failed x env o)
+        | (.error x, o) => .done (failE x env o)
         | (.ok vv, o1) =>
           match evalE M obj env e o1 with
-          | (.error x, o) => .done (.failed x env o)
+          | (.error x, o) => .done (failE x env o)
           | (.ok ev, o2) =>
             match caseOp M vv ev with
             | .error x => .done (.failed x env o2)
@@ -264,7 +271,7 @@ mutual
     | _ + 1, .ret e, env, out =>
         match evalE M obj env e out with
         | (.ok v, o) => .returned v env o
-        | (.error x, o) => .failed x env o
+        | (.error x, o) => failE x env o
     | f + 1, .expr e, env, out => execE M F obj depth f e env out
   termination_by structural f => f
   def execSs (M : Machine) (F : FnTable) (obj : HostVal) (depth : Nat) : Nat → List Stmt → Env → Str → Outcome
@@ -421,13 +428,6 @@ theorem step_iterNext_noscope (M : Machine) (obj : HostVal) (len : Nat) (rb : By
   simp only [step, this, isBinary]
   simp [h, hs, err]
 
-theorem CodeAt.tail {code : Bytes} {off : Nat} {i : Instr} {rest : List Instr} (h : CodeAt code off (i :: rest)) :
-    CodeAt code (off + i.size) rest := by
-  have : CodeAt code off ([i] ++ rest) := h
-  have := this.right
-  simpa [codeSize] using this
-
-
 /-- the pieces of the code of a `foreach`, where they sit, and what its name constants denote -/
 structure ForeachLayout (M : Machine) (code : Bytes) (idx x : Str) (v : Expr) (body : List Stmt) (base : Nat)
     (cst : CState) (r : List Instr × CState) (cv : List Instr) (st1 : CState) (cb : List Instr) (ci cx : Value) : Prop where
@@ -563,33 +563,6 @@ theorem step_void (M : Machine) (obj : HostVal) (len : Nat) (rb : Bytes → RunS
     step M obj len rb Op.void.toNat arg next stack st = .cont next (.void :: stack) st := by
   have : Op.ofNat? Op.void.toNat = some .void := rfl
   simp only [step, this, isBinary]; simp
-
-/-- what OpCall does with the arguments on the stack, for a built-in or host function -/
-theorem step_call_host (M : Machine) (obj : HostVal) (len : Nat) (rb : Bytes → RunSt → Res × RunSt) (next : Nat)
-    (cn : Value) (vs : List Value) (stack : List Value) (st : RunSt) (impl : FnImpl)
-    (hl : lookupFn M cn.inspect = some impl) :
-    step M obj len rb Op.call.toNat vs.length next (cn :: (vs.reverse ++ stack)) st =
-      (match (callImpl cn.inspect impl vs).res with
-       | .panic => .halt (.error .panic) { st with out := st.out ++ (callImpl cn.inspect impl vs).out }
-       | .unsupported => .halt (.error .unsupported) { st with out := st.out ++ (callImpl cn.inspect impl vs).out }
-       | .val .nil => .halt (.error .panic) { st with out := st.out ++ (callImpl cn.inspect impl vs).out }
-       | .val .void => .cont next stack { st with out := st.out ++ (callImpl cn.inspect impl vs).out }
-       | .val v => .cont next (v :: stack) { st with out := st.out ++ (callImpl cn.inspect impl vs).out }) := by
-  have : Op.ofNat? Op.call.toNat = some .call := rfl
-  simp only [step, this, isBinary]
-  have hp : popN vs.length (vs.reverse ++ stack) = some (vs, stack) := by
-    unfold popN
-    have : ¬ ((vs.reverse ++ stack).length < vs.length) := by simp
-    simp only [this, ↓reduceIte]
-    have h1 : (vs.reverse ++ stack).take vs.length = vs.reverse := by simp
-    have h3 : (vs.reverse ++ stack).drop vs.length = stack := by simp
-    rw [h1, h3]; simp
-  simp only [Bool.false_eq_true, ↓reduceIte, hp, hl]
-  generalize callImpl cn.inspect impl vs = r
-  cases hr : r.res with
-  | panic => rfl
-  | unsupported => rfl
-  | val v => cases v <;> rfl
 
 /-- … for a name that is neither built-in, host nor user-defined -/
 theorem step_call_unknown (M : Machine) (obj : HostVal) (len : Nat) (rb : Bytes → RunSt → Res × RunSt) (next : Nat)
@@ -772,12 +745,16 @@ theorem call_ok (ctx : Ctx M code) (hF : FnOK M F obj) (f : Nat) (ihAll : ∀ co
     show (if Op.call.length = 3 then args.length % 65536 else 0) = args.length
     rw [if_pos (by rfl : Op.call.length = 3), Nat.mod_eq_of_lt hal]
   have r1 : ∃ ex, M.consts = st1.consts ++ ex := pool_trans hp (addConstant_ext st1 (.str fn.str))
-  obtain ⟨n1, k1, ih1⟩ := exprs_ok args base cst _ hpa h1 M obj code ctx hc.left r1 stack env out polls depth
+  have hU1 : (evalEs M obj env args out).1 ≠ .error undefErr := by
+    intro hm; obtain ⟨ox, hx⟩ := fst_err hm; exact hnd (by simp [callWith, hx])
+  obtain ⟨n1, k1, ih1⟩ := exprs_ok args base cst _ hpa h1 M obj code ctx hc.left r1 stack env out polls depth hU1
   simp only [callWith] at hnd ⊢
   cases hev : evalEs M obj env args out with
   | mk res o1 =>
     cases res with
-    | error x => exact ⟨n1, k1, 0, fun fuel => by rw [ih1 fuel, hev]; simp [afterL, afterC]⟩
+    | error x =>
+      have hne : x ≠ undefErr := fun he => hU1 (by rw [hev, he])
+      exact ⟨n1, k1, 0, fun fuel => by rw [ih1 fuel, hev]; simp [afterL, afterC, hne]⟩
     | ok vs =>
       simp only [hev] at hnd
       have hvl : vs.length = args.length := evalEs_length M obj env args out vs o1 hev
@@ -902,7 +879,7 @@ theorem execS_ret (depth f : Nat) (e : Expr) (env : Env) (out : Str) (h : ∀ fn
     execS M F obj depth (f + 1) (.ret e) env out =
       (match evalE M obj env e out with
        | (.ok v, o) => .returned v env o
-       | (.error x, o) => .failed x env o) := by
+       | (.error x, o) => failE x env o) := by
   cases e <;> first | exact absurd rfl (h _ _) | simp only [execS]
 
 theorem stmtE_assign (name : Str) (v : Expr) (h : ∀ fn args, v ≠ .call fn args) : stmtE (.assign name v) = pureE v := by
@@ -912,7 +889,7 @@ theorem execE_assign (depth f : Nat) (name : Str) (v : Expr) (env : Env) (out : 
     execE M F obj depth (f + 1) (.assign name v) env out =
       (match evalE M obj env v out with
        | (.ok x, o) => .normal (env.set name x) o
-       | (.error e, o) => .failed e env o) := by
+       | (.error e, o) => failE e env o) := by
   cases v <;> first | exact absurd rfl (h _ _) | simp only [execE]
 
 theorem step_Ss (ctx : Ctx M code) (f : Nat) (ihAll : ∀ code', Ctx M code' → SIH M F obj code' f) :
@@ -1000,12 +977,14 @@ theorem step_S (ctx : Ctx M code) (hF : FnOK M F obj) (f : Nat) (ihAll : ∀ cod
     have hnc : ∀ fn args, e ≠ .call fn args := fun fn args h => hcall ⟨fn, args, h⟩
     rw [pureS_ret e hnc] at hpure
     rw [execS_ret depth f e env out hnc] at hnd ⊢
-    obtain ⟨n1, k1, ih1⟩ := expr_ok e base cst _ hpure h1 M obj code ctx hc.left hp stack env out polls depth
+    have hU1 : (evalE M obj env e out).1 ≠ .error undefErr := by
+      intro hm; obtain ⟨ox, hx⟩ := fst_err hm; exact hnd (by simp [execE, execS, execArm, hx, failE])
+    obtain ⟨n1, k1, ih1⟩ := expr_ok e base cst _ hpure h1 M obj code ctx hc.left hp stack env out polls depth hU1
     cases hev : evalE M obj env e out with
     | mk res o1 =>
       cases res with
       | error x =>
-        exact ⟨n1, k1, 0, fun fuel => by rw [ih1 fuel, hev]; simp [after, afterS]⟩
+        exact ⟨n1, k1, 0, fun fuel => by rw [ih1 fuel, hev]; simp [after, afterS, failE_ne (fun he => hU1 (by rw [hev, he]) : x ≠ undefErr)]⟩
       | ok v =>
         have hrun : ∀ fuel, loop M obj code (fuel + n1) base stack ⟨env, out, polls, depth⟩ =
             loop M obj code fuel (base + e.size) (v :: stack) ⟨env, o1, polls + k1, depth⟩ := by
@@ -1125,11 +1104,13 @@ theorem step_E (ctx : Ctx M code) (hF : FnOK M F obj) (f : Nat) (ihAll : ∀ cod
     have harg : storedArg (withConst st1 .constant (.str name)).1 = (withConst st1 .constant (.str name)).1.arg := by
       simp [storedArg, hop, Op.length, Nat.mod_eq_of_lt hlt]
     have r1 : ∃ ex, M.consts = st1.consts ++ ex := pool_trans hp (addConstant_ext st1 (.str name))
-    obtain ⟨n1, k1, ih1⟩ := expr_ok v base cst _ hpure h1 M obj code ctx hc.left r1 stack env out polls depth
+    have hU1 : (evalE M obj env v out).1 ≠ .error undefErr := by
+      intro hm; obtain ⟨ox, hx⟩ := fst_err hm; exact hnd (by simp [execE, execS, execArm, hx, failE])
+    obtain ⟨n1, k1, ih1⟩ := expr_ok v base cst _ hpure h1 M obj code ctx hc.left r1 stack env out polls depth hU1
     cases hev : evalE M obj env v out with
     | mk res o1 =>
       cases res with
-      | error x => exact ⟨n1, k1, 0, fun fuel => by rw [ih1 fuel, hev]; simp [after, afterS]⟩
+      | error x => exact ⟨n1, k1, 0, fun fuel => by rw [ih1 fuel, hev]; simp [after, afterS, failE_ne (fun he => hU1 (by rw [hev, he]) : x ≠ undefErr)]⟩
       | ok x =>
         have hrun1 : ∀ fuel, loop M obj code (fuel + n1) base stack ⟨env, out, polls, depth⟩ =
             loop M obj code fuel (base + v.size) (x :: stack) ⟨env, o1, polls + k1, depth⟩ := by
@@ -1176,12 +1157,14 @@ theorem step_E (ctx : Ctx M code) (hF : FnOK M F obj) (f : Nat) (ihAll : ∀ cod
       have ha1 : storedArg ⟨.jumpIfFalse, base + c.size + 3 + Stmt.sizes cons⟩ = base + c.size + 3 + Stmt.sizes cons := by
         show (if Op.jumpIfFalse.length = 3 then (base + c.size + 3 + Stmt.sizes cons) % 65536 else 0) = base + c.size + 3 + Stmt.sizes cons
         rw [if_pos (by rfl : Op.jumpIfFalse.length = 3), Nat.mod_eq_of_lt (by omega)]
-      obtain ⟨n1, k1, ih1⟩ := expr_ok c base cst _ hpure.1 h1 M obj code ctx hcc (pool_trans hp r2.ext) stack env out polls depth
+      have hU1 : (evalE M obj env c out).1 ≠ .error undefErr := by
+        intro hm; obtain ⟨ox, hx⟩ := fst_err hm; exact hnd (by simp [execE, execS, execArm, hx, failE])
+      obtain ⟨n1, k1, ih1⟩ := expr_ok c base cst _ hpure.1 h1 M obj code ctx hcc (pool_trans hp r2.ext) stack env out polls depth hU1
       simp only [execE] at hnd ⊢
       cases hev : evalE M obj env c out with
       | mk res o1 =>
         cases res with
-        | error x => exact ⟨n1, k1, 0, fun fuel => by rw [ih1 fuel, hev]; simp [after, afterS]⟩
+        | error x => exact ⟨n1, k1, 0, fun fuel => by rw [ih1 fuel, hev]; simp [after, afterS, failE_ne (fun he => hU1 (by rw [hev, he]) : x ≠ undefErr)]⟩
         | ok cv =>
           simp only [hev] at hnd
           have hrun1 : ∀ fuel, loop M obj code (fuel + n1) base stack ⟨env, out, polls, depth⟩ =
@@ -1269,13 +1252,15 @@ theorem step_E (ctx : Ctx M code) (hF : FnOK M F obj) (f : Nat) (ihAll : ∀ cod
       have ha2 : storedArg ⟨.jump, base + c.size + 3 + Stmt.sizes cons + 3 + Stmt.sizes a⟩ = base + c.size + 3 + Stmt.sizes cons + 3 + Stmt.sizes a := by
         show (if Op.jump.length = 3 then (base + c.size + 3 + Stmt.sizes cons + 3 + Stmt.sizes a) % 65536 else 0) = base + c.size + 3 + Stmt.sizes cons + 3 + Stmt.sizes a
         rw [if_pos (by rfl : Op.jump.length = 3), Nat.mod_eq_of_lt (by omega)]
+      have hU1 : (evalE M obj env c out).1 ≠ .error undefErr := by
+        intro hm; obtain ⟨ox, hx⟩ := fst_err hm; exact hnd (by simp [execE, execS, execArm, hx, failE])
       obtain ⟨n1, k1, ih1⟩ := expr_ok c base cst _ hpc h1 M obj code ctx hcc
-        (pool_trans (pool_trans hp r3.ext) r2.ext) stack env out polls depth
+        (pool_trans (pool_trans hp r3.ext) r2.ext) stack env out polls depth hU1
       simp only [execE] at hnd ⊢
       cases hev : evalE M obj env c out with
       | mk res o1 =>
         cases res with
-        | error x => exact ⟨n1, k1, 0, fun fuel => by rw [ih1 fuel, hev]; simp [after, afterS]⟩
+        | error x => exact ⟨n1, k1, 0, fun fuel => by rw [ih1 fuel, hev]; simp [after, afterS, failE_ne (fun he => hU1 (by rw [hev, he]) : x ≠ undefErr)]⟩
         | ok cv =>
           simp only [hev] at hnd
           have hrun1 : ∀ fuel, loop M obj code (fuel + n1) base stack ⟨env, out, polls, depth⟩ =
@@ -1373,12 +1358,14 @@ theorem step_E (ctx : Ctx M code) (hF : FnOK M F obj) (f : Nat) (ihAll : ∀ cod
     have ha2 : storedArg ⟨.jump, base⟩ = base := by
       show (if Op.jump.length = 3 then base % 65536 else 0) = base
       rw [if_pos (by rfl : Op.jump.length = 3), Nat.mod_eq_of_lt (by omega)]
-    obtain ⟨n1, k1, ih1⟩ := expr_ok c base cst _ hpure.1 h1 M obj code ctx hcc (pool_trans hp r2.ext) stack env out polls depth
+    have hU1 : (evalE M obj env c out).1 ≠ .error undefErr := by
+      intro hm; obtain ⟨ox, hx⟩ := fst_err hm; exact hnd (by simp [execE, execS, execArm, hx, failE])
+    obtain ⟨n1, k1, ih1⟩ := expr_ok c base cst _ hpure.1 h1 M obj code ctx hcc (pool_trans hp r2.ext) stack env out polls depth hU1
     simp only [execE] at hnd ⊢
     cases hev : evalE M obj env c out with
     | mk res o1 =>
       cases res with
-      | error x => exact ⟨n1, k1, 0, fun fuel => by rw [ih1 fuel, hev]; simp [after, afterS]⟩
+      | error x => exact ⟨n1, k1, 0, fun fuel => by rw [ih1 fuel, hev]; simp [after, afterS, failE_ne (fun he => hU1 (by rw [hev, he]) : x ≠ undefErr)]⟩
       | ok cv =>
         simp only [hev] at hnd
         have hrun1 : ∀ fuel, loop M obj code (fuel + n1) base stack ⟨env, out, polls, depth⟩ =
@@ -1436,12 +1423,14 @@ theorem step_E (ctx : Ctx M code) (hF : FnOK M F obj) (f : Nat) (ihAll : ∀ cod
     simp only [stmtE, Bool.and_eq_true] at hpure
     obtain ⟨cv, st1, cb, ci, cx, L⟩ := foreach_layout h hc hp
     have hres := L.atReset
-    obtain ⟨n1, k1, ih1⟩ := expr_ok v base cst _ hpure.1 L.hv M obj code ctx L.atv L.pool1 stack env out polls depth
+    have hU1 : (evalE M obj env v out).1 ≠ .error undefErr := by
+      intro hm; obtain ⟨ox, hx⟩ := fst_err hm; exact hnd (by simp [execE, execS, execArm, hx, failE])
+    obtain ⟨n1, k1, ih1⟩ := expr_ok v base cst _ hpure.1 L.hv M obj code ctx L.atv L.pool1 stack env out polls depth hU1
     simp only [execE] at hnd ⊢
     cases hev : evalE M obj env v out with
     | mk res o1 =>
       cases res with
-      | error e => exact ⟨n1, k1, 0, fun fuel => by rw [ih1 fuel, hev]; simp [after, afterS]⟩
+      | error e => exact ⟨n1, k1, 0, fun fuel => by rw [ih1 fuel, hev]; simp [after, afterS, failE_ne (fun he => hU1 (by rw [hev, he]) : e ≠ undefErr)]⟩
       | ok iv =>
         simp only [hev] at hnd
         have hrun1 : ∀ fuel, loop M obj code (fuel + n1) base stack ⟨env, out, polls, depth⟩ =
@@ -1570,17 +1559,21 @@ theorem step_E (ctx : Ctx M code) (hF : FnOK M F obj) (f : Nat) (ihAll : ∀ cod
           simp [storedArg, hkop, Op.length, Nat.mod_eq_of_lt hlt]
         have p2 : ∃ ex, M.consts = st2.consts ++ ex := pool_trans hp (addConstant_ext st2 (.str name))
         have p1 : ∃ ex, M.consts = st1.consts ++ ex := pool_trans p2 r2.ext
-        obtain ⟨n1, k1, ih1⟩ := expr_ok (.ident name) base cst _ (by simp [pureE]) h1 M obj code ctx hcl p1 stack env out polls depth
+        have hU1 : (evalE M obj env (.ident name) out).1 ≠ .error undefErr := by
+          intro hm; obtain ⟨ox, hx⟩ := fst_err hm; exact hnd (by simp [execE, hco, hx, failE])
+        obtain ⟨n1, k1, ih1⟩ := expr_ok (.ident name) base cst _ (by simp [pureE]) h1 M obj code ctx hcl p1 stack env out polls depth hU1
         simp only [execE, hco]
         cases hev : evalE M obj env (.ident name) out with
         | mk res o1 =>
           cases res with
-          | error x => exact ⟨n1, k1, 0, fun fuel => by rw [ih1 fuel, hev]; simp [after, afterS]⟩
+          | error x => exact ⟨n1, k1, 0, fun fuel => by rw [ih1 fuel, hev]; simp [after, afterS, failE_ne (fun he => hU1 (by rw [hev, he]) : x ≠ undefErr)]⟩
           | ok lv =>
             have hrun1 : ∀ fuel, loop M obj code (fuel + n1) base stack ⟨env, out, polls, depth⟩ =
                 loop M obj code fuel (base + (Expr.ident name).size) (lv :: stack) ⟨env, o1, polls + k1, depth⟩ := by
               intro fuel; rw [ih1 fuel, hev]; rfl
-            obtain ⟨n2, k2, ih2⟩ := expr_ok r _ _ _ hpr h2 M obj code ctx hcr p2 (lv :: stack) env o1 (polls + k1) depth
+            have hU2 : (evalE M obj env r o1).1 ≠ .error undefErr := by
+              intro hm; obtain ⟨ox, hx⟩ := fst_err hm; exact hnd (by simp [execE, hco, hev, hx, failE])
+            obtain ⟨n2, k2, ih2⟩ := expr_ok r _ _ _ hpr h2 M obj code ctx hcr p2 (lv :: stack) env o1 (polls + k1) depth hU2
             simp only []
             cases hev2 : evalE M obj env r o1 with
             | mk res2 o2 =>
@@ -1588,7 +1581,7 @@ theorem step_E (ctx : Ctx M code) (hF : FnOK M F obj) (f : Nat) (ihAll : ∀ cod
               | error x =>
                 refine ⟨n2 + n1, k1 + k2, 0, ?_⟩
                 apply chain hrun1 n2
-                intro fuel; rw [ih2 fuel]; simp [hev2, after, afterS, Nat.add_assoc]
+                intro fuel; rw [ih2 fuel]; simp [hev2, after, afterS, Nat.add_assoc, failE_ne (fun he => hU2 (by rw [hev2, he]) : x ≠ undefErr)]
               | ok rv =>
                 simp only []
                 have hrun2 : ∀ fuel, loop M obj code (fuel + (n2 + n1)) base stack ⟨env, out, polls, depth⟩ =
@@ -1697,25 +1690,29 @@ theorem step_Rm (ctx : Ctx M code) (f : Nat) (ihAll : ∀ code', Ctx M code' →
     have ha2 : storedArg ⟨.jump, endPos⟩ = endPos := by
       show (if Op.jump.length = 3 then endPos % 65536 else 0) = _
       rw [if_pos (by rfl : Op.jump.length = 3), Nat.mod_eq_of_lt (by omega)]
-    obtain ⟨n1, k1, ih1⟩ := expr_ok v base cst _ hpv h1 M obj code ctx hcv p1 stack env out polls depth
+    have hU1 : (evalE M obj env v out).1 ≠ .error undefErr := by
+      intro hm; obtain ⟨ox, hx⟩ := fst_err hm; exact hnd (by simp [execE, execS, execArm, hx, failE])
+    obtain ⟨n1, k1, ih1⟩ := expr_ok v base cst _ hpv h1 M obj code ctx hcv p1 stack env out polls depth hU1
     simp only [execArm] at hnd ⊢
     cases hev : evalE M obj env v out with
     | mk res o1 =>
       cases res with
-      | error x => exact ⟨n1, k1, 0, fun fuel => by rw [ih1 fuel, hev]; simp [after, afterA, afterS]⟩
+      | error x => exact ⟨n1, k1, 0, fun fuel => by rw [ih1 fuel, hev]; simp [after, afterA, afterS, failE_ne (fun he => hU1 (by rw [hev, he]) : x ≠ undefErr)]⟩
       | ok vv =>
         simp only [hev] at hnd
         have hrun1 : ∀ fuel, loop M obj code (fuel + n1) base stack ⟨env, out, polls, depth⟩ =
             loop M obj code fuel (base + v.size) (vv :: stack) ⟨env, o1, polls + k1, depth⟩ := by
           intro fuel; rw [ih1 fuel, hev]; rfl
-        obtain ⟨n2, k2, ih2⟩ := expr_ok e _ _ _ hpes.1 h2 M obj code ctx hce p2 (vv :: stack) env o1 (polls + k1) depth
+        have hU2 : (evalE M obj env e o1).1 ≠ .error undefErr := by
+          intro hm; obtain ⟨ox, hx⟩ := fst_err hm; exact hnd (by simp [hx, failE])
+        obtain ⟨n2, k2, ih2⟩ := expr_ok e _ _ _ hpes.1 h2 M obj code ctx hce p2 (vv :: stack) env o1 (polls + k1) depth hU2
         cases hev2 : evalE M obj env e o1 with
         | mk res2 o2 =>
           cases res2 with
           | error x =>
             refine ⟨n2 + n1, k1 + k2, 0, ?_⟩
             apply chain hrun1 n2
-            intro fuel; rw [ih2 fuel]; simp [hev2, after, afterA, afterS, Nat.add_assoc]
+            intro fuel; rw [ih2 fuel]; simp [hev2, after, afterA, afterS, Nat.add_assoc, failE_ne (fun he => hU2 (by rw [hev2, he]) : x ≠ undefErr)]
           | ok ev =>
             simp only [hev2] at hnd ⊢
             have hrun2 : ∀ fuel, loop M obj code (fuel + (n2 + n1)) base stack ⟨env, out, polls, depth⟩ =
